@@ -145,6 +145,18 @@ func TestVerifCrash(t *testing.T) {
 				return
 			}
 		}
+		// an acknowledged entry under the same key makes the interrupted upload an overwrite
+		var rest []vAcked
+		for _, e := range acked {
+			if e.kind == kind && e.hash == hash {
+				if old == nil {
+					old = e.data
+				}
+				continue
+			}
+			rest = append(rest, e)
+		}
+		acked = rest
 		vQuiesce(a)
 		cutSet := map[int]bool{0: true, size / 2: true, size - 1: true}
 		for _, c := range []int{4096, 1 << 20, 2 << 20, 1<<20 - 1} {
@@ -160,6 +172,10 @@ func TestVerifCrash(t *testing.T) {
 		}
 		sort.Ints(cuts)
 		var images []vImage
+		preNames := map[string]bool{} // files that existed before the interrupted upload started
+		for _, f := range vListing(adir) {
+			preNames[f.Name] = true
+		}
 		lk := cache.LookupKey(kind, hash)
 		vHookByKey.Store(lk, func(point string) {
 			if point == "put.beforeCommit" {
@@ -191,6 +207,9 @@ func TestVerifCrash(t *testing.T) {
 				_ = os.MkdirAll(filepath.Dir(p), 0o755)
 				_ = os.WriteFile(p, img.files[nme], 0o644)
 				at := base.Add(time.Duration(i) * time.Second)
+				if !preNames[nme] {
+					at = base.Add(30 * time.Minute) // the file of the interrupted upload is the most recently touched one
+				}
 				_ = os.Chtimes(p, at, at)
 			}
 			sig := fmt.Sprintf("%s.%s.%s->%s", img.label, kind.String(), modeA, modeB)
@@ -278,6 +297,9 @@ func TestVerifCrash(t *testing.T) {
 				}
 				res, got := read(kind, hash, sz, v.z)
 				cs.Count("inflight-read." + res)
+				if old != nil {
+					cs.Count(fmt.Sprintf("overwrite-read.%s.%s.%s", stored, img.label[:5], res))
+				}
 				if res == "hit" && !ok(got) {
 					vs := "size-unknown"
 					if v.known {
@@ -285,6 +307,17 @@ func TestVerifCrash(t *testing.T) {
 					}
 					cs.Violation("C08", fmt.Sprintf("crash.torn-served.%sfile.%s", stored, vs),
 						fmt.Sprintf("image %s: %s read (zstd=%v) of the upload that was in flight returned %d bytes that are neither absent nor a complete upload (%d bytes)", sig, vs, v.z, len(got), len(data)), cs.CaseOps())
+				}
+				if old != nil && res != "hit" && img.label != "acknowledged" {
+					// the key had an acknowledged value before the interrupted upload started
+					vs := "size-unknown"
+					if v.known {
+						vs = "size-known"
+					}
+					if !(v.known && len(old) != size) { // a read stating the new size cannot match the old value
+						cs.Violation("C08", fmt.Sprintf("crash.acked-lost.overwrite.%sfile", stored),
+							fmt.Sprintf("image %s: the key had an acknowledged value before the interrupted overwrite, after the restart a %s read (zstd=%v) answers %s", sig, vs, v.z, res), cs.CaseOps())
+					}
 				}
 				if img.label == "acknowledged" && (res != "hit" || !bytes.Equal(got, data)) && old == nil {
 					cs.Violation("C08", "crash.acked-lost.last", fmt.Sprintf("image %s: the acknowledged upload itself: %s", sig, res), cs.CaseOps())
